@@ -2757,13 +2757,64 @@ def replay_rulegen_odd_templates(a):
         shutil.rmtree(d, ignore_errors=True)
 
 
+def test_result_exit_code(a):
+    """`cfn-guard test -o json|yaml|junit`: TestResult::get_exit_code, its `any` closure and TestCase::has_failures"""
+    c_ = mirsmt.consts_of(a.mir)
+    OK, TERR, TFAIL = c_["SUCCESS_STATUS_CODE"], c_["TEST_ERROR_STATUS_CODE"], c_["TEST_FAILURE_STATUS_CODE"]
+    TR = enum_variants(a.src, "commands/reporters/test/structured.rs", "TestResult")
+    TC = struct_fields(a.src, "commands/reporters/test/structured.rs", "TestCase")
+    IMPL = r"(?:reporters::test::)?structured::<impl at guard/src/commands/reporters/test/structured\.rs:\d+:\d+: \d+:\d+>::"
+    ex = a.exec(IMPL + "get_exit_code", {"any": lambda ex, av: ex.havoc("bool"), "iter": mirexec.m_new_iter, "deref": mirexec.m_identity},
+                log=("any",), unroll=1, max_paths=200, first_arg_re=r"_1: &TestResult")
+    a.fns.append("commands::reporters::test::structured::TestResult::get_exit_code (+ closure, TestCase::has_failures)")
+    me = ex.arg_env["_1"]
+    bad = []
+    for p in ex.paths:
+        r = p.ret
+        if p.outcome != "return" or r is None or r[0] != "int":
+            bad.append(pc_term(p.pc))
+            continue
+        anys = calls(p, "any")
+        iserr = f"(= {disc(ex, me)} {TR.index('Err')})"
+        if anys:
+            good = f"(and (not {iserr}) (= {r[1]} (ite {anys[0][3][1]} {TFAIL} {OK})))"
+        else:
+            good = f"(and {iserr} (= {r[1]} {TERR}))"
+        bad.append(f"(and {pc_term(p.pc)} (not {good}))")
+    a.discharge("test/structured/exit-code", ex, bad,
+                "TestResult::get_exit_code: an unreadable / unparsable test file gives the test-error code; otherwise the test-failure code iff "
+                "`any` test case has failures, else success")
+    ex2 = a.exec(IMPL + r"get_exit_code::\{closure#0\}", {"has_failures": lambda ex, av: ex.havoc("bool")}, log=("has_failures",), unroll=1, max_paths=50)
+    bad2 = []
+    for p in ex2.paths:
+        hf = calls(p, "has_failures")
+        ok = p.outcome == "return" and len(hf) == 1 and p.ret == hf[0][3] and same(hf[0][2][0], ex2.arg_env["_2"])
+        bad2.append("false" if ok else pc_term(p.pc))
+    a.discharge("test/structured/exit-code/any-closure", ex2, bad2, "the predicate given to `any` is has_failures of the test case visited", witness=False)
+    ex3 = a.exec(IMPL + "has_failures", {"is_empty": mirexec.m_is_empty}, log=("is_empty",), unroll=1, max_paths=50)
+    me3 = ex3.arg_env["_1"]
+    failed = field(ex3, me3, TC.index("failed_rules"), "Vec")
+    bad3 = []
+    for p in ex3.paths:
+        r = p.ret
+        ie = calls(p, "is_empty")
+        ok = p.outcome == "return" and r is not None and r[0] == "bool" and len(ie) == 1 and same(ie[0][2][0], failed)
+        bad3.append(f"(and {pc_term(p.pc)} (not (= {r[1]} (not (= {ex3.len_of(failed)} 0)))))" if ok else pc_term(p.pc))
+    c = a.discharge("test/structured/has_failures", ex3, bad3, "a test case has failures iff its failed_rules list is not empty", witness=False)
+    for x in a.ob.items[-4:]:
+        if x["status"] == "refuted" and "replay" not in x:
+            x["replay"] = replay_test_structured(a)
+            x["reproduced"] = x["replay"].get("reproduced", False)
+            a.candidates.append(x)
+
+
 
 SITES = {
-    "C06": [structured_report, structured_parse_closure, junit_exit_code, junit_test_case, junit_report, validate_execute_step, test_generic_report],
+    "C06": [structured_report, structured_parse_closure, junit_exit_code, junit_test_case, junit_report, validate_execute_step, test_generic_report, test_result_exit_code],
     "C12": [structured_report, junit_test_case, data_input_wiring, data_input_params_wiring, structured_merge_closure, test_get_by_result, test_structured_evaluate, report_combine_union],
     "C07": [flags_verdict_wiring, reporter_chain, library_entry_wiring, structured_report, junit_test_case, validate_execute_step,
             data_input_params_wiring, structured_merge_closure],
-    "C16": [test_generic_report, test_get_by_result, test_get_by_rules, test_structured_evaluate],
+    "C16": [test_generic_report, test_get_by_result, test_get_by_rules, test_structured_evaluate, test_result_exit_code],
     "C09": [report_partition, report_rule_listing, report_combine_union, unary_empty_on_expr],
     "C15": [scope_resolution, param_rule_call, param_ctx_resolve],
     "C04": [rule_status_semantics],
